@@ -100,7 +100,7 @@ def evaluate(t, env):
     a, b = vs
     if isinstance(a, np.ndarray) or isinstance(b, np.ndarray):
       a, b = np.asarray(a), np.asarray(b)
-      return a.shape == b.shape and bool(np.allclose(a.astype(float), b.astype(float), rtol=1e-9, atol=1e-9))
+      return a.shape == b.shape and bool(np.allclose(a.astype(float), b.astype(float), rtol=1e-9, atol=1e-9, equal_nan=True))
     if isinstance(a, bool) or isinstance(b, bool):
       return bool(a) == bool(b)
     return abs(a - b) <= 1e-9 * max(1.0, abs(a), abs(b))
